@@ -8,11 +8,11 @@ export GOFLAGS=-mod=mod GOPROXY=off
 [ -n "$SYN" ] && export GOEXPERIMENT=synctest
 cd $WT || exit 2
 DEMOS=$(ls $MOD/zz_seed*_test.go 2>/dev/null)
-mkdir -p /tmp/seed_aside; for d in $DEMOS; do mv $d /tmp/seed_aside/; done
+mkdir -p /tmp/seed_aside_$$; for d in $DEMOS; do mv $d /tmp/seed_aside_$$/; done
 echo "== suites with the change (demo aside)"
 (cd gbn && go test -vet=off -count=1 ./... 2>&1 | tail -1)
 (cd mailbox && go test -vet=off -count=1 ./... 2>&1 | tail -1)
-for d in $DEMOS; do mv /tmp/seed_aside/$(basename $d) $d; done
+for d in $DEMOS; do mv /tmp/seed_aside_$$/$(basename $d) $d; done
 echo "== demo with the change (must FAIL)"
 (cd $MOD && go test -vet=off -count=1 -run "$RX" . 2>&1 | tail -3)
 echo "== demo without the change (must PASS)"
